@@ -31,7 +31,7 @@ CHECKS = {
     "C13": ("proof: Lean theorems on the coded force-bias trial probability over the reals (= published Bal-Neyts density, 0<=P<=1, integral of P = 1 hence acceptance 1/2 per round, favours the force, mean (coth g - 1/g)/2 strictly increasing, |g|<=709.782712, |dx|<=delta(m_min/m)^p, loop termination for every accepting script, one set_positions) on a hand-written model of ForceBias.step, tied to the code by recorded-generator replay on prescribed forces",
             "§6 C13", "Lean 4 + Mathlib interval integrals; differential correspondence (recorded PCG64 draws replayed in the Float model) + bound/termination/single-update oracles + KS search",
             "numpy SIMD exp vs libm differ by 1 ulp: decisions within 2e-15(2+coth|g|) compared on gamma only; |g| at rounding level not tied; T in [1,1e4] K"),
-    "C03": ("proof: Lean theorems on the M-machine (a line-by-line model of MonteCarlo.step, the moves, contexts and ensemble save/revert): fail_restores, reject_restores (canonical, Hamiltonian, isobaric/isotension, grand canonical; bare moves, CompositeDisplacementMove, plain composites), reject_restores_exchange and reject_restores_composite_insertion/deletion (ExchangeMove and CompositeExchangeMove incl. FixAtoms), inv_trial, history_restores at every position of any history, gc_mixed_history (grand-canonical histories interleaving displacements, insertions and deletions); known finding proved as plain_two_deletions_not_restored; tied to the code by scripted histories on the real drivers with snapshots after every trial",
+    "C03": ("proof: Lean theorems on the M-machine (a line-by-line model of MonteCarlo.step, the moves, contexts and ensemble save/revert): fail_restores, reject_restores (canonical, Hamiltonian, isobaric/isotension, grand canonical; bare moves, CompositeDisplacementMove, plain composites), reject_restores_exchange and reject_restores_composite_insertion/deletion (ExchangeMove and CompositeExchangeMove incl. FixAtoms), inv_trial, history_restores at every position of any history, history_restores_any (histories that also contain bare cell moves under Isobaric/Isotension and Hamiltonian moves), gc_mixed_history (grand-canonical histories interleaving displacements, insertions and deletions); known finding proved as plain_two_deletions_not_restored; tied to the code by scripted histories on the real drivers with snapshots after every trial",
             "§6 C03", "Lean 4 invariant proofs over a state-machine model + differential correspondence (snapshot after every trial) + before/after oracle on the real code",
             "integer-valued positions/momenta/cells; ASE extend/__delitem__/set_positions/set_cell/FixAtoms semantics as modelled; plain composites with exchange members are not covered by theorems (known finding); composite deletion is proved for members sharing one labelling"),
     "C05": ("proof: Lean theorems on the M-machine: labels_aligned_after_accept (every label-bearing move reachable from the table, any composite, repeated objects), inserted_particle_one_label, auto_label_fresh, default_label_honoured (0 and negatives), nexch_counter, template untouched, not_accepted_keeps_labels, ginv_trial and gc_history (after ANY history of accepted/rejected/failed insertions and deletions: labels aligned, constraint indices valid, counter = initial + insertions - deletions); known finding proved as composite_insertion_shares_label; tied to the code by scripted grand-canonical histories on the real driver",
